@@ -112,7 +112,9 @@ int main()
         {
             rec::Rec r;
             volatile long cur = -3;
+            gb.readonly(true); // visiting never writes (C11): the image is mapped read-only for the complete visit
             auto out = vh::guarded([&] { cur = run_visit(mi, p, img.size(), sel, how, r); }, 5000);
+            gb.readonly(false);
             runs++;
             total_blocks = r.blocks;
             if(out.kind != vh::OK)
